@@ -100,6 +100,8 @@ class RZILTransformer(Transformer):
             )
 
         self.il_ops_holder = ILOpsHolder()
+        # Name prefix of the local variables which hold the values of hybrids.
+        self.hybrid_tmp_prefix = "h_tmp"
 
         if self.arch == ArchEnum.HEXAGON:
             self.ext = HexagonTransformerExtension(self)
@@ -1060,7 +1062,7 @@ class RZILTransformer(Transformer):
         if hybrid.value_type.group & VTGroup.VOID:
             return hybrid
 
-        tmp_x_name = f"h_tmp{self.il_ops_holder.hybrid_op_count}"
+        tmp_x_name = f"{self.hybrid_tmp_prefix}{self.il_ops_holder.hybrid_op_count}"
         self.il_ops_holder.hybrid_op_count += 1
         if hybrid.seq_order == HybridSeqOrder.EXEC_ONLY:
             # Doesn't return anything. So no LocalVar for the return value has to be initialized.
